@@ -44,19 +44,29 @@ def _alarm_handler(signum, frame):
 
 
 class Watchdog:
-    """SIGALRM-based per-run watchdog. Only usable in the main thread of a worker."""
+    """SIGALRM-based watchdog. Nestable: an inner watchdog re-arms the outer one on exit.
+    Only usable in the main thread of a process."""
 
     def __init__(self, seconds):
         self.seconds = seconds
 
     def __enter__(self):
+        import time as _t
+
+        self._t0 = _t.time()
         self._old = signal.signal(signal.SIGALRM, _alarm_handler)
-        signal.setitimer(signal.ITIMER_REAL, self.seconds)
+        self._old_timer = signal.setitimer(signal.ITIMER_REAL, self.seconds)
         return self
 
     def __exit__(self, *exc):
+        import time as _t
+
         signal.setitimer(signal.ITIMER_REAL, 0)
         signal.signal(signal.SIGALRM, self._old)
+        remaining, _interval = self._old_timer
+        if remaining and remaining > 0:
+            left = max(0.001, remaining - (_t.time() - self._t0))
+            signal.setitimer(signal.ITIMER_REAL, left)
         return False
 
 
